@@ -38,7 +38,14 @@ type auditEntry struct {
 	Kind, Func, Operand string
 	Count               int
 	NeedUpper           bool
-	Reason              string
+	// NeedStrict: the argument made by reading rests on a strict test `index < bound` that dominates the site; the
+	// site must still carry such a fact for its index (the bound itself is what was read)
+	NeedStrict bool
+	// Cursor: the waived lower bound rests on an invariant of the indexing variable, which is re-established on every
+	// run instead of counting the sites that rely on it: every store to the variable is its initialisation with a
+	// non-negative constant, an increment, the restoration of a value read from it earlier, or — at most once — a decrement
+	Cursor bool
+	Reason string
 }
 
 var auditTable = []auditEntry{
@@ -46,9 +53,9 @@ var auditTable = []auditEntry{
 		Reason: "vendored ES6 number formatter (cyberphone reference code): indexes the output of strconv.FormatFloat, whose 'e' form is d[.d…]e±dd (so e+2 and e+3 exist) and whose long integer 'f' form has ≥ 12 digits ending in a non-zero digit before the scanned zeros"},
 	{Kind: "slice", Func: "internal/jsoncanonicalizer.NumberToJSON", Count: 4,
 		Reason: "same shape argument as the index sites of NumberToJSON"},
-	{Kind: "index", Func: "internal/jsoncanonicalizer.Transform$", Operand: "^$jsonData[^index]", Count: 2, NeedUpper: true,
+	{Kind: "index", Func: "internal/jsoncanonicalizer.Transform$", Operand: "^$jsonData[^index]", Count: -1, NeedUpper: true, Cursor: true,
 		Reason: "lower bound: index starts at 0, is only incremented, and is decremented exactly once in parseSimpleType immediately after scan() consumed at least one character; the upper bound index < len(jsonData) is still proven by rule"},
-	{Kind: "index", Func: "internal/jsoncanonicalizer.Transform", Operand: "$jsonData[new:int]", Count: 1, NeedUpper: true,
+	{Kind: "index", Func: "internal/jsoncanonicalizer.Transform", Operand: "$jsonData[new:int]", Count: -1, NeedUpper: true, Cursor: true,
 		Reason: "trailing-content loop: index is the same never-negative cursor; the upper bound index < len(jsonData) is still proven by rule"},
 	{Kind: "slice", Func: "internal/jsoncanonicalizer.Transform$", Operand: "^$jsonData[^index:^index]", Count: 1,
 		Reason: "getUEscape: low is an earlier value of index, and index never exceeds len(jsonData) because every increment is guarded by index < jsonDataLength"},
@@ -56,8 +63,6 @@ var auditTable = []auditEntry{
 		Reason: "indexed by the range variable of asciiEscapes; the two escape tables have equal length (checked by C07.tables)"},
 	{Kind: "index", Func: "internal/jsoncanonicalizer.Transform$", Operand: "asciiEscapes[", Count: 1,
 		Reason: "indexed by the range variable of binaryEscapes; the two escape tables have equal length (checked by C07.tables)"},
-	{Kind: "index", Func: "internal/jsoncanonicalizer.Transform$", Operand: "ortKey[φ]", Count: 2,
-		Reason: "lexicographicallyPrecedes: q < minLength and minLength = min(len(oldSortKey), len(sortKey))"},
 	{Kind: "slice", Func: "internal/jws.verifyECSignature", Operand: "$signature[", Count: 2,
 		Reason: "len(signature) = 2·keySize is established on every path (C09.size.ec) and keySize is one of the positive constants of parseEllipticCurve's table (C09.tables.verifier)"},
 	{Kind: "slice", Func: "(*operationparser.Parser).ParseDID", Operand: "strings.LastIndex($shortOrLongFormDID", Count: 2,
@@ -439,8 +444,8 @@ func (r *Run) panicSitesIn(f *ssa.Function, nilableParams map[*ssa.Parameter]boo
 				xt, it := ff.TB.Of(X), ff.TB.Of(I)
 				desc := fmt.Sprintf("%s[%s]", short(xt.String(), 60), short(it.String(), 60))
 				by := ""
-				if nonNegative(I, 0) {
-					if w, ok := upperBounded(at, it, xt, false); ok {
+				if nonNegative(I, 0) || factNonNegative(at, it) {
+					if w, ok := r.upperBoundedX(ff, at, it, xt, false); ok {
 						by = "bounds: index ≥ 0 by construction and " + short(w, 120)
 					}
 				}
@@ -456,7 +461,7 @@ func (r *Run) panicSitesIn(f *ssa.Function, nilableParams map[*ssa.Parameter]boo
 				lo, hi := x.Low, x.High
 				if hi != nil {
 					ht := ff.TB.Of(hi)
-					if w, good := upperBounded(at, ht, xt, true); good && nonNegative(hi, 0) {
+					if w, good := r.upperBoundedX(ff, at, ht, xt, true); good && nonNegative(hi, 0) {
 						why = append(why, "high: "+short(w, 100))
 					} else {
 						ok = false
@@ -862,6 +867,8 @@ func (r *Run) checkNoPanic(P string, entries map[string]*ssa.Function, floorFns 
 	np := r.nilableParamsOf(fns)
 	total, byRule, byAudit := 0, 0, 0
 	auditHits := map[int]int{}
+	auditSeen := map[string]bool{}
+	auditWhere := map[int][]string{}
 	kinds := map[string]int{}
 	seenSym := map[string]int{}
 	for _, f := range fns {
@@ -920,9 +927,56 @@ func (r *Run) checkNoPanic(P string, entries map[string]*ssa.Function, floorFns 
 					}
 				}
 			}
+			if matched >= 0 && auditTable[matched].Cursor {
+				var I ssa.Value
+				switch y := s.Instr.(type) {
+				case *ssa.IndexAddr:
+					I = y.Index
+				case *ssa.Index:
+					I = y.Index
+				case *ssa.Lookup:
+					I = y.Index
+				}
+				if why, ok := cursorInvariant(s.Fn, I); !ok {
+					r.R.Add(&core.Obligation{ID: id, Rule: rule, Construct: s.Symbol, Status: core.Violated, Where: where, Why: why,
+						Detail: s.Kind + " site: the audited lower bound rests on the cursor never being negative, which no longer holds: " + why + " — " + s.Desc})
+					continue
+				}
+			}
+			if matched >= 0 && auditTable[matched].NeedStrict {
+				var I ssa.Value
+				switch y := s.Instr.(type) {
+				case *ssa.IndexAddr:
+					I = y.Index
+				case *ssa.Index:
+					I = y.Index
+				}
+				ff := r.E.Facts(s.Fn, core.Ctx{})
+				strict := false
+				if I != nil {
+					it := ff.TB.Of(I).String()
+					for _, fc := range ff.At(s.Instr) {
+						if fc.Kind == "cmp" && fc.A != nil && fc.B != nil && ((fc.Op == "<" && fc.A.String() == it) || (fc.Op == ">" && fc.B.String() == it)) {
+							strict = true
+						}
+					}
+				}
+				if !strict {
+					auditHits[matched]++
+					r.R.Add(&core.Obligation{ID: id, Rule: rule, Construct: s.Symbol, Status: core.Violated, Where: where, Why: why,
+						Detail: s.Kind + " site: the audited argument needs a strict test index < bound before the access, and none holds here: " + s.Desc})
+					continue
+				}
+			}
 			if matched >= 0 {
 				byAudit++
-				auditHits[matched]++
+				// a helper inlined at several call sites (normalisation) repeats the audited instruction at one source position
+				pk := fmt.Sprintf("%d|%s", matched, r.P.Fset.Position(s.Instr.Pos()).String())
+				auditWhere[matched] = append(auditWhere[matched], r.P.Fset.Position(s.Instr.Pos()).String())
+				if !auditSeen[pk] {
+					auditSeen[pk] = true
+					auditHits[matched]++
+				}
 				r.R.Ok(id, rule, s.Symbol, where, why, s.Desc+" — audited: "+auditTable[matched].Reason)
 				continue
 			}
@@ -939,10 +993,10 @@ func (r *Run) checkNoPanic(P string, entries map[string]*ssa.Function, floorFns 
 		if !reachableFn[a.Func] {
 			continue
 		}
-		if auditHits[ai] != a.Count {
+		if a.Count >= 0 && auditHits[ai] != a.Count {
 			r.R.Unk(P+".nopanic.audit."+a.Kind+"@"+a.Func+":"+a.Operand, "E10 audited entry count", a.Func, "-",
 				"an audited exception that matches more (or fewer) sites than were confirmed by reading is no longer the audited code",
-				fmt.Sprintf("audited entry matched %d site(s), %d were confirmed by reading", auditHits[ai], a.Count))
+				fmt.Sprintf("audited entry matched %d site(s), %d were confirmed by reading (%s)", auditHits[ai], a.Count, strings.Join(auditWhere[ai], " ")))
 		}
 	}
 	r.R.SetCount("E10 panic-capable sites", total)
@@ -1242,4 +1296,217 @@ func (r *Run) callersHaveNonNil(f *ssa.Function, t *core.Term) (string, bool) {
 		}
 	}
 	return "caller precondition: every call site has " + t.String() + " != nil", true
+}
+
+// upperBoundedX: upperBounded, extended by the minimum idiom. `m := len(a); if m > len(b) { m = len(b) }` makes m a
+// merged value every operand of which is len(x) itself or, on the way it comes in by, known not to exceed len(x); an
+// index below m (or below the length of `y[:m]`) is then below len(x).
+func (r *Run) upperBoundedX(ff *core.FnFacts, facts core.FactSet, idx, x *core.Term, inclusive bool) (string, bool) {
+	if w, ok := upperBounded(facts, idx, x, inclusive); ok {
+		return w, true
+	}
+	// candidates: M with idx < M (idx ≤ M when inclusive); idx itself when inclusive
+	type cand struct {
+		m   *core.Term
+		why string
+	}
+	var cands []cand
+	if inclusive {
+		cands = append(cands, cand{idx, "the bound itself"})
+	}
+	is := idx.String()
+	for _, f := range facts {
+		if f.Kind != "cmp" || f.A == nil || f.B == nil {
+			continue
+		}
+		switch {
+		case f.A.String() == is && (f.Op == "<" || (inclusive && f.Op == "<=")):
+			cands = append(cands, cand{f.B, f.Key()})
+		case f.B.String() == is && (f.Op == ">" || (inclusive && f.Op == ">=")):
+			cands = append(cands, cand{f.A, f.Key()})
+		}
+	}
+	for _, c := range cands {
+		m := c.m
+		// len(y[:h]) is h
+		if m.Op == "len" && len(m.Args) == 1 && m.Args[0].Op == "slice" && len(m.Args[0].Args) > 2 && m.Args[0].Args[2] != nil && m.Args[0].Args[1] == nil {
+			m = m.Args[0].Args[2]
+		}
+		if m.Op != "phi" {
+			continue
+		}
+		phi, ok := m.Val.(*ssa.Phi)
+		if !ok || phi.Parent() != ff.Fn {
+			continue
+		}
+		if r.minPhi(ff, phi, x) {
+			return c.why + " ∧ " + m.String() + " ≤ len(" + short(x.String(), 40) + ") on every way in (minimum idiom)", true
+		}
+	}
+	return "", false
+}
+
+// minPhi: every operand of phi is len(x) or is known, on its edge, to be at most len(x).
+func (r *Run) minPhi(ff *core.FnFacts, phi *ssa.Phi, x *core.Term) bool {
+	xs := "len(" + x.String() + ")"
+	for i, e := range phi.Edges {
+		et := ff.TB.Of(e).String()
+		if et == xs {
+			continue
+		}
+		set := phiEdgeFacts(ff, phi, i)
+		ok := false
+		for _, f := range set {
+			if f.Kind != "cmp" || f.A == nil || f.B == nil {
+				continue
+			}
+			a, b := f.A.String(), f.B.String()
+			if (a == et && b == xs && (f.Op == "<" || f.Op == "<=")) || (a == xs && b == et && (f.Op == ">" || f.Op == ">=")) {
+				ok = true
+			}
+		}
+		if !ok {
+			return false
+		}
+	}
+	return len(phi.Edges) > 0
+}
+
+// factNonNegative: the facts say the term is at least 0 (the "index or -1" result tested before use).
+func factNonNegative(at core.FactSet, t *core.Term) bool {
+	ts := t.String()
+	for _, f := range at {
+		if f.Kind != "cmp" || f.A == nil || f.B == nil || f.B.Op != "const" || f.A.String() != ts {
+			continue
+		}
+		switch {
+		case f.Op == ">=" && f.B.Name == "0", f.Op == ">" && f.B.Name == "-1", f.Op == "!=" && f.B.Name == "-1" && rangeIndexTerm(t):
+			return true
+		}
+	}
+	// the index of a range loop
+	return rangeIndexTerm(t)
+}
+
+// rangeIndexTerm: (φ + 1) where φ merges -1 and the term's own value — the index of a range loop over a slice.
+func rangeIndexTerm(t *core.Term) bool {
+	if t.Op != "bin" || t.Name != "+" || len(t.Args) != 2 || t.Args[1].Op != "const" || t.Args[1].Name != "1" {
+		return false
+	}
+	phi, ok := t.Args[0].Val.(*ssa.Phi)
+	if !ok || len(phi.Edges) != 2 {
+		return false
+	}
+	hasInit, hasSelf := false, false
+	for _, e := range phi.Edges {
+		if c, isC := e.(*ssa.Const); isC && c.Value != nil && c.Value.ExactString() == "-1" {
+			hasInit = true
+		}
+		if b, isB := e.(*ssa.BinOp); isB && b.Op == token.ADD && b.X == ssa.Value(phi) {
+			hasSelf = true
+		}
+	}
+	return hasInit && hasSelf
+}
+
+// cursorInvariant: idx is a load of a local variable of the root function (directly or as a captured variable) all of
+// whose stores keep it non-negative: a non-negative constant, the variable plus one, a value loaded from the variable
+// earlier (save / restore), and at most one decrement in the whole function tree.
+func cursorInvariant(fn *ssa.Function, idx ssa.Value) (string, bool) {
+	ld, ok := idx.(*ssa.UnOp)
+	if !ok || ld.Op != token.MUL {
+		return "the index is not a load of the cursor variable", false
+	}
+	var al *ssa.Alloc
+	switch a := ld.X.(type) {
+	case *ssa.Alloc:
+		al = a
+	case *ssa.FreeVar:
+		al = allocOfFreeVar(fn, a)
+	}
+	if al == nil {
+		return "the cursor variable could not be identified", false
+	}
+	root := al.Parent()
+	var fns []*ssa.Function
+	var collect func(f *ssa.Function)
+	collect = func(f *ssa.Function) {
+		fns = append(fns, f)
+		for _, a := range f.AnonFuncs {
+			collect(a)
+		}
+	}
+	collect(root)
+	isCursor := func(f *ssa.Function, addr ssa.Value) bool {
+		if addr == ssa.Value(al) {
+			return true
+		}
+		if fv, ok := addr.(*ssa.FreeVar); ok && freeVarBinds(f, fv, al) {
+			return true
+		}
+		return false
+	}
+	loadOfCursor := func(f *ssa.Function, v ssa.Value) bool {
+		u, ok := v.(*ssa.UnOp)
+		return ok && u.Op == token.MUL && isCursor(f, u.X)
+	}
+	dec := 0
+	decAt := map[string]bool{}
+	for _, f := range fns {
+		for _, b := range f.Blocks {
+			for _, ins := range b.Instrs {
+				st, ok := ins.(*ssa.Store)
+				if !ok || !isCursor(f, st.Addr) {
+					continue
+				}
+				switch v := st.Val.(type) {
+				case *ssa.Const:
+					if n, ok := constInt(v); !ok || n < 0 {
+						return "the cursor is set to a constant that may be negative at " + f.Prog.Fset.Position(st.Pos()).String(), false
+					}
+				case *ssa.BinOp:
+					one, isOne := constInt(v.Y)
+					switch {
+					case v.Op == token.ADD && loadOfCursor(f, v.X) && isOne && one >= 0:
+					case v.Op == token.SUB && loadOfCursor(f, v.X) && isOne && one == 1:
+						// (a helper inlined at two call sites repeats one decrement: counted by source position)
+						if pos := f.Prog.Fset.Position(st.Pos()).String(); !decAt[pos] {
+							decAt[pos] = true
+							dec++
+						}
+					default:
+						return "the cursor is assigned a computed value at " + f.Prog.Fset.Position(st.Pos()).String(), false
+					}
+				case *ssa.UnOp:
+					// restoring a saved value: the saved value is itself a load of the cursor (possibly kept in a local)
+					if loadOfCursor(f, v) {
+						continue
+					}
+					if inner, ok := v.X.(*ssa.Alloc); ok && v.Op == token.MUL {
+						good := true
+						if refs := inner.Referrers(); refs != nil {
+							for _, rf := range *refs {
+								if s2, isSt := rf.(*ssa.Store); isSt && s2.Addr == ssa.Value(inner) && !loadOfCursor(f, s2.Val) {
+									good = false
+								}
+							}
+						}
+						if good {
+							continue
+						}
+					}
+					return "the cursor is assigned a value that is not one of its own earlier values at " + f.Prog.Fset.Position(st.Pos()).String(), false
+				default:
+					if loadOfCursor(f, st.Val) {
+						continue
+					}
+					return "the cursor is assigned a computed value at " + f.Prog.Fset.Position(st.Pos()).String(), false
+				}
+			}
+		}
+	}
+	if dec > 1 {
+		return fmt.Sprintf("the cursor is decremented at %d places", dec), false
+	}
+	return "", true
 }
